@@ -93,10 +93,15 @@ def run(chk, tier):
     import uaf
     nua = uaf.run(chk, P, units=tuple(UTIL_UNITS + LSTOPO_UNITS + ["lstopo-draw.c", "lstopo-ascii.c", "lstopo-svg.c", "lstopo-fig.c", "lstopo-tikz.c", "lstopo-shmem.c", "misc.h", "hwloc-calc.h", "hwloc-ps.c", "hwloc-gather-cpuid.c", "common-ps.c", "hwloc-dump-hwdata.c"]))
     chk.floor("R-UAF", "release sites examined in the tools", nua, 60)
+    chk.rule("R-BUFSIZE", "a heap buffer handed to an snprintf-like producer (any function with an adjacent writable (char *, size) parameter pair) is handed over with exactly its allocated size (allocation and size expressions compared after resolving named temporaries and realloc aliases)")
+    import bufsize
+    nbs = bufsize.run(chk, P, units=None)
+    chk.floor("R-BUFSIZE", "heap buffers handed to producers", nbs, 15)
     chk.rule("R-PROG", "loop progress in the tools")
     nl = progloops.run(chk, P, UTIL_UNITS)
     chk.floor("R-PROG", "in-scope loops", nl, 18)
-    chk.decided += ["hwloc-calc's operators map to the documented set operations", "tools never mix cpusets and nodesets", "no NULL object name/subtype or optional argument pointer is used as a string (no crash on unnamed objects)",
+    chk.decided += ['buffers allocated by the tools for snprintf-like API calls are handed over with their allocated size (no truncated export)',
+                    "hwloc-calc's operators map to the documented set operations", "tools never mix cpusets and nodesets", "no NULL object name/subtype or optional argument pointer is used as a string (no crash on unnamed objects)",
                     "lstopo's XML/synthetic outputs come from the library exports of the loaded topology", "hwloc-distrib prints what its single hwloc_distrib call returned"]
     chk.undecided += ["that the printed set equals the API-computed set", "--largest / -I / -N / --single equivalences", "hwloc-diff | hwloc-patch file equality", "non-zero exit status on every malformed argument"]
     chk.trusted += ["clang 14 front end"]
